@@ -94,6 +94,32 @@ def subobjects(design, t, steps=(), lo=0):
   return out
 
 
+def ref_is_bits(design, cls, r):
+  """True when reference r (a local path of class cls + steps) denotes a Bits-valued object (not a struct / list)"""
+  path = r["path"]
+  while "." in path:
+    iname, path = path.split(".", 1)
+    iname = iname.split("[")[0]
+    ccn = dict(cls["children"]).get(iname)
+    if ccn is None: return False
+    cls = design["classes"][ccn]
+  base = path.split("[")[0].replace("$", "")
+  t = None
+  for sg in cls["signals"]:
+    if sg["name"] == base: t = sg["type"]
+  if t is None: return False
+  for st in r["steps"]:
+    if st[0] == "f":
+      if isinstance(t, int) or t[0] != "struct": return False
+      t = dict((fn, ft) for fn, ft in design["types"][t[1]])[st[1]]
+    elif st[0] == "i":
+      if isinstance(t, int) or t[0] != "list": return False
+      t = t[2]
+    else:
+      return isinstance(t, int)
+  return isinstance(t, int)
+
+
 def field_range(design, t, fname):
   """(lo, width) of a top-level field inside the packed struct; first field most significant"""
   for st, lo, ft in subobjects(design, t):
@@ -119,6 +145,7 @@ def ewidth(e):
   if k in ("zext", "sext", "trunc"): return e[2]
   if k == "cat": return sum(ewidth(x) for x in e[1])
   if k == "cast": return e[2]            # same-width BitsN( expr ) cast
+  if k == "vf": return e[3]["w"]        # value-returning @s.func helper  name(arg) == arg OP s.<signal>
   if k == "vsl": return e[3]            # variable part-select x[ i : i+size ] (size 1: also the bit select x[i])
   if k == "csl": return e[3] - e[2]     # slice [lo:hi] of a call result ( concat(..)[lo:hi], sext(..)[lo:hi] )
   if k == "ite": return ewidth(e[2]) if ewidth(e[2]) is not None else ewidth(e[3])
@@ -134,6 +161,7 @@ def expr_refs(e, out):
   elif k in ("inv", "zext", "sext", "trunc", "csl", "cast"): expr_refs(e[1], out)
   elif k == "red": expr_refs(e[2], out)
   elif k == "vsl": out.append(e[1]); expr_refs(e[2], out)
+  elif k == "vf": expr_refs(e[2], out); out.append(e[3])
   elif k == "cat":
     for x in e[1]: expr_refs(x, out)
   elif k == "ite": expr_refs(e[1], out); expr_refs(e[2], out); expr_refs(e[3], out)
@@ -198,10 +226,38 @@ def subst_expr(e, env):
   if k == "csl": return [k, subst_expr(e[1], env), e[2], e[3]]
   if k == "cast": return [k, subst_expr(e[1], env), e[2]]
   if k == "vsl": return [k, concretize(e[1], env), subst_expr(e[2], env)] + list(e[3:])
+  if k == "vf": return [k, e[1], subst_expr(e[2], env), e[3], e[4]]
   if k == "red": return [k, e[1], subst_expr(e[2], env)]
   if k == "cat": return [k, [subst_expr(x, env) for x in e[1]]]
   if k == "ite": return [k, subst_expr(e[1], env), subst_expr(e[2], env), subst_expr(e[3], env)]
   raise KeyError(k)
+
+
+def map_expr(e, f):
+  """e rebuilt bottom-up; f(node) -> replacement node (or the node itself)"""
+  k = e[0]
+  if k in ("rd", "c", "fv", "tv", "lv"): n = e
+  elif k in ("bin", "cmp"): n = [k, e[1], map_expr(e[2], f), map_expr(e[3], f)]
+  elif k == "inv": n = [k, map_expr(e[1], f)]
+  elif k in ("zext", "sext", "trunc", "csl", "cast"): n = [k, map_expr(e[1], f)] + list(e[2:])
+  elif k == "red": n = [k, e[1], map_expr(e[2], f)]
+  elif k == "vsl": n = [k, e[1], map_expr(e[2], f)] + list(e[3:])
+  elif k == "vf": n = [k, e[1], map_expr(e[2], f), e[3], e[4]]
+  elif k == "cat": n = [k, [map_expr(x, f) for x in e[1]]]
+  elif k == "ite": n = [k, map_expr(e[1], f), map_expr(e[2], f), map_expr(e[3], f)]
+  else: raise KeyError(k)
+  return f(n)
+
+
+def map_stmts(stmts, f):
+  out = []
+  for st in stmts:
+    if st[0] == "=": out.append(["=", st[1], map_expr(st[2], f)] + list(st[3:]))
+    elif st[0] == "tmp": out.append(["tmp", st[1], map_expr(st[2], f)])
+    elif st[0] == "for": out.append(st[:5] + [map_stmts(st[5], f)])
+    elif st[0] in ("call", "raw"): out.append(st)
+    else: out.append([st[0], map_expr(st[1], f), map_stmts(st[2], f), map_stmts(st[3], f)])
+  return out
 
 
 def unroll(stmts, env=None):
@@ -242,6 +298,7 @@ def expr_text(e):
     if len(e) > 3 and e[3] == "kw": return f"{k}(value={expr_text(e[1])}, new_width={e[2]})"        # keyword arguments
     return f"{k}({expr_text(e[1])}, {e[2]})"
   if k == "csl": return f"{expr_text(e[1])}[{e[2]}:{e[3]}]"
+  if k == "vf": return f"{e[1]}({expr_text(e[2])})"
   if k == "vsl":
     it = expr_text(e[2])
     return f"{ref_text(e[1])}[{it}]" if e[4] == "bit" else f"{ref_text(e[1])}[{it}:{it}+{e[3]}]"
@@ -283,6 +340,7 @@ def ev(e, rd, env=None):
   if k == "trunc": return ev(e[1], rd, env) & mask(e[2])
   if k == "csl": return (ev(e[1], rd, env) >> e[2]) & mask(e[3] - e[2])
   if k == "vsl": return (rd(e[1]) >> ev(e[2], rd, env)) & mask(e[3])
+  if k == "vf": return ev(["bin", e[4], e[2], ["rd", e[3]]], rd, env)
   if k == "cast": return ev(e[1], rd, env) & mask(e[2])
   if k == "cat":
     r = 0
@@ -374,6 +432,11 @@ def emit(design, connect_order=None, connect_style=None, block_order=None):
     blks = list(c["blocks"])
     if block_order and cn in block_order:
       blks = [blks[i] for i in block_order[cn]]
+    # value-returning @s.func helpers with one argument, shared by every block that mentions the same (signal, operator)
+    for fname, (op, r) in sorted(c.get("vfuncs", {}).items()):
+      L.append("    @s.func")
+      L.append(f"    def {fname}(x):")
+      L.append(f"      return x {BINOPS[op]} {ref_text(r)}")
     # @s.func helpers (no arguments): their statements are inlined in block["stmts"]; only the emitted text calls them
     for fname, fn in sorted(c.get("funcs", {}).items()):
       L.append("    @s.func")
@@ -1033,6 +1096,8 @@ class Gen:
         else:
           cls["constraints"].append(f"RD({ref_text(rng.choice(whole))}) > U(up_{i})")
     cls["constraints"] = sorted(set(cls["constraints"]))
+    if k.get("p_vfunc") and rng.random() < k["p_vfunc"]:
+      self.add_vfuncs(cls)
     if k.get("p_func"):
       self.add_funcs(cls)
     self.cur_cls = outer_cls
@@ -1040,6 +1105,39 @@ class Gen:
     d["order"].append(cname)
     self.by_depth.setdefault(depth, []).append(cname)
     return cname
+
+  def add_vfuncs(self, cls):
+    """reads of some signals go through a value-returning helper  vf(x): return x OP s.sig  - ONE helper per signal, called
+    from every block that reads it (s.sig  ->  vf(0);  a OP s.sig  ->  vf(a)); values are unchanged"""
+    rng = self.rng
+    occ = {}
+    def note(bi):
+      def f(n):
+        if n[0] == "rd" and not n[1].get("sym") and n[1]["w"] <= 64 and ref_is_bits(self.design, cls, n[1]):
+          occ.setdefault(json.dumps(n[1], sort_keys=True), set()).add(bi)
+        return n
+      return f
+    blks = [b for b in cls["blocks"] if not b.get("lambda") and not b.get("op")]
+    for bi, b in enumerate(blks): map_stmts(b["stmts"], note(bi))
+    shared = [key for key, bs in sorted(occ.items()) if len(bs) >= 2] or sorted(occ)
+    if not shared: return
+    rng.shuffle(shared)
+    vfuncs = cls.setdefault("vfuncs", {})
+    chosen = {}
+    for key in shared[:rng.randrange(1, 3)]:
+      name = f"vf{len(vfuncs)}"
+      op = rng.choice(["xor", "or", "add"])
+      vfuncs[name] = (op, json.loads(key)); chosen[key] = (name, op)
+    def conv(n):
+      if n[0] == "bin" and n[3][0] == "rd" and ewidth(n[2]) == n[3][1]["w"] and not may_be_int(n[2]):
+        c = chosen.get(json.dumps(n[3][1], sort_keys=True))
+        if c and c[1] == n[1]: return ["vf", c[0], n[2], n[3][1], c[1]]
+      if n[0] == "rd":
+        c = chosen.get(json.dumps(n[1], sort_keys=True))
+        if c and rng.random() < 0.8: return ["vf", c[0], ["c", 0, n[1]["w"]], n[1], c[1]]
+      return n
+    for b in blks:
+      b["stmts"] = map_stmts(b["stmts"], conv)
 
   def add_funcs(self, cls):
     """move runs of plain statements of some blocks into argument-less @s.func helpers (possibly nested two deep); the
